@@ -299,12 +299,34 @@ pub fn run<B: Base>(job: &Value, x: &[B], x2: Option<&[B]>) -> (Vec<Rel<B>>, Val
             let skip = job["skip"].as_u64().unwrap_or(0) as usize; // DIPPR records carry the equation number first
             let mut spec = B::zero();
             for (i, r) in recs.iter().enumerate() {
-                let mut cp = B::zero();
-                let mut tk = B::one();
-                for c in &r[skip..] {
-                    cp = cp + tk * *c;
-                    tk = tk * t;
-                }
+                let eq = if skip == 1 { r[0] as i32 } else { 0 };
+                let c = &r[skip..];
+                let cp = match eq {
+                    // DIPPR 107 (Aly-Lee): a + b (c/T / sinh(c/T))^2 + d (e/T / cosh(e/T))^2
+                    107 => {
+                        let ct = B::from(c[2]) / t;
+                        let et = B::from(c[4]) / t;
+                        (ct / ct.sinh()).powi(2) * c[1] + (et / et.cosh()).powi(2) * c[3] + c[0]
+                    }
+                    // DIPPR 127: a + sum_k B_k (C_k/T)^2 exp(C_k/T) / (exp(C_k/T) - 1)^2
+                    127 => {
+                        let fun = |p: f64| {
+                            let x = B::from(p) / t;
+                            x * x * x.exp() / (x.exp() - 1.0).powi(2)
+                        };
+                        fun(c[2]) * c[1] + fun(c[4]) * c[3] + fun(c[6]) * c[5] + c[0]
+                    }
+                    // Joback / DIPPR 100: polynomial
+                    _ => {
+                        let mut cp = B::zero();
+                        let mut tk = B::one();
+                        for ck in c {
+                            cp = cp + tk * *ck;
+                            tk = tk * t;
+                        }
+                        cp
+                    }
+                };
                 spec = spec + n[i] / ntot * cp;
             }
             let spec = spec / rgas - 1.0;
